@@ -1,18 +1,36 @@
 (* C18 - everything a session emits stays decodable by a conformant peer, at any uptime.
-   Proved so far (PARTIAL):
-   * C18_serializer_stream: for EVERY sequence of serialize / set_max_chunk_size calls accepted by the one serializer a
-     session owns - any message stream ids, any u32 timestamps (the session clock enters only as such a timestamp, so any
-     uptime incl. past 2^24 and 2^32 ms), any droppable flags - and EVERY subset of droppable packets removed, the
-     independent spec decoder reads exactly the surviving messages (T1);
-   * C18_send_is_serialize: every message a session sends is one serialize call carrying that message's type id and body;
-   * C18_server_media_droppable: the droppable mark is the flag the application passed.
-   Not yet a theorem: that the packets a successful call RETURNS are, in order, exactly the serializer outputs of that call
-   (the obligation that exposed defect D15, now repaired); it is decided by the correspondence check (model vs real
-   session, packet for packet) and by the oracles C18.decodable* / C18.messages_carry_expected_timestamp_and_stream on
-   the real packets.  Histories with a failed call are known finding K2. *)
+   Proved:
+   * C18_server_history_decodable: for EVERY history of a server session from ServerSession::new in which the calls succeeded -
+     any inputs (bytes), any application calls, any clock readings below 2^32 (i.e. any uptime, the clock being a u32), any
+     stream ids - and EVERY subset of the packets returned as droppable withheld, the packets returned, concatenated in order,
+     are read by the independent specification decoder as exactly the messages of the surviving packets.  Parts: the packets a
+     successful call returns are, in order, exactly the outputs of the serializer operations it performed, each well-formed and
+     carrying the returned droppable flag (SessionTrace.v: produces / server_step_traced; this is the obligation that exposed
+     defect D15), chunk-size changes are serializer operations announced in-band (T1), decoded stream ids are 32-bit;
+   * C18_serializer_stream: the same for every sequence of serialize / set_max_chunk_size calls on one serializer (T1);
+   * C18_send_is_serialize, C18_server_media_droppable: a sent message is one serialize call with its type id and body; the
+     droppable mark is the flag the application passed.
+   PARTIAL: the client session's version of the history theorem is not written (its calls are covered by the correspondence
+   check and the oracles C18.decodable* on the real packets); histories containing a failed call are known finding K2. *)
 From RML Require Import Model.Base Model.Chunk Model.ChunkSer Model.Messages Model.SessionCommon Model.Server Spec.ChunkSpec
-  Proofs.ChunkSerProofs Proofs.ServerProofs Proofs.SessionProofs.
+  Proofs.ChunkSerProofs Proofs.ServerProofs Proofs.SessionProofs Proofs.InteropProofs Proofs.SessionTrace.
 Local Open Scope N_scope.
+
+Theorem C18_server_history_decodable : forall cfg clock0 ops s0 rs0 s' rs keep,
+  clock0 < 4294967296 -> Forall sop_ok ops ->
+  server_new cfg clock0 = (s0, ROk rs0) -> server_trace s0 ops = Some (s', rs) ->
+  keep_flags_ok keep (map snd (pkts (rs0 ++ rs))) ->
+  exists sent, length sent = length (pkts (rs0 ++ rs)) /\
+    sdec (concat (select keep (map fst (pkts (rs0 ++ rs))))) = SOk (select keep sent).
+Proof. exact server_history_decodable. Qed.
+
+(* one call: what it returns is what its serializer operations produced *)
+Theorem C18_server_call_traced : forall s op, sop_ok op -> sinv s -> ser_ok (sv_ser s) ->
+  match server_step s op with
+  | (s', ROk rs) => produces (sv_ser s) rs (sv_ser s') /\ sinv s'
+  | _ => True
+  end.
+Proof. exact server_step_traced. Qed.
 
 Theorem C18_serializer_stream_partial : forall ops keep packets st',
   Forall op_wf ops -> ser_run ser_init ops = Ok (packets, st') -> keep_ok keep ops ->
@@ -30,6 +48,8 @@ Theorem C18_server_media_droppable : forall s sid data ts drop s' rs (video : bo
   exists b, rs = [SPacket b drop].
 Proof. exact server_media_droppable. Qed.
 
+Print Assumptions C18_server_history_decodable.
+Print Assumptions C18_server_call_traced.
 Print Assumptions C18_serializer_stream_partial.
 Print Assumptions C18_send_is_serialize.
 Print Assumptions C18_server_media_droppable.
